@@ -397,7 +397,8 @@ def replay(doc):
     d = _APP.dump()
     cls = classify(pre, post, d, rp['fault'], rp['op'])
     print('fault-free status', r0.status, 'with fault', st, 'classification', cls)
-    hit = cls is not None and doc.get('signature', '').endswith(cls)
+    # the recorded signature is `c17:<fault>:<op>:<classification>[:<where the fault struck>]`
+    hit = cls is not None and (':%s:' % cls in doc.get('signature', '') + ':')
     print('REPRODUCED' if hit else 'not reproduced')
     return 1 if hit else 0
 
